@@ -68,6 +68,7 @@ func (w *world) evalImages(r *replica, depth int) {
 }
 
 func (w *world) evalImage(parent *replica, im evalImage, depth int) {
+	w.imgReplica, w.imgFormat = parent.id, parent.format
 	saveStep := w.step
 	savedOverride := w.propOverride
 	ip := "C04"
@@ -174,6 +175,59 @@ func (w *world) attach(im evalImage) {
 	w.out.Artifacts["image"] = im.img.Encode()
 	w.out.Artifacts["image_lower"] = im.lower
 	w.out.Artifacts["image_upper"] = im.upper
+	w.out.Artifacts["image_step"] = im.step
+	w.out.Artifacts["image_during"] = im.during
+	w.out.Artifacts["image_mid"] = im.mid
+	w.out.Artifacts["image_replica"] = w.imgReplica
+	w.out.Artifacts["image_format"] = w.imgFormat
+}
+
+func collectAppends(steps []Step, f func(*Step)) {
+	for i := range steps {
+		if steps[i].Op == "append" {
+			f(&steps[i])
+		}
+		collectAppends(steps[i].Inner, f)
+	}
+}
+
+// ExecArtifacts re-runs the crash-recovery oracle on the durable image stored in a replay file. The log
+// (and with it the model) is a function of the schedule's append steps alone, so the verdict on the
+// stored image is exactly repeatable even when a re-execution lets a background flush land elsewhere.
+func ExecArtifacts(s core.Schedule, art map[string]any) *core.Outcome {
+	sc := s.(*Sched)
+	out := core.NewOutcome()
+	enc, _ := art["image"].(string)
+	if enc == "" {
+		return out
+	}
+	img, err := crashfs.DecodeImage(enc)
+	if err != nil {
+		out.Fail("HARNESS", "artifact", "artifact", 0, "cannot decode the stored image: %v", err)
+		return out
+	}
+	num := func(k string) uint64 {
+		switch v := art[k].(type) {
+		case float64:
+			return uint64(v)
+		case uint64:
+			return v
+		case int:
+			return uint64(v)
+		}
+		return 0
+	}
+	w := newWorld(&sc.Cfg, out)
+	defer w.cache.Unref()
+	collectAppends(sc.Steps, func(st *Step) { w.appendCmds(st.Cmds) })
+	parent := &replica{id: int(num("image_replica")), format: int(num("image_format")), ctxs: map[int]*snapCtx{}}
+	during, _ := art["image_during"].(string)
+	mid, _ := art["image_mid"].(bool)
+	saved := w.cfg.HarvestDeep
+	w.cfg.HarvestDeep = false
+	w.evalImage(parent, evalImage{pendingImage: pendingImage{img: img, upper: num("image_upper"), step: int(num("image_step")), mid: mid, during: during}, lower: num("image_lower")}, 2)
+	w.cfg.HarvestDeep = saved
+	return out
 }
 
 // Exec executes a schedule in world W1. It must run inside a synctest bubble.
